@@ -18,6 +18,7 @@ pub enum V {
     Priority,
     MultiArch,
     Words,
+    CommaWords,
     Lines,
     Sha1s,
     Sha256s,
@@ -110,6 +111,7 @@ pub fn value(rng: &mut Rng, v: V) -> String {
         V::Priority => rng.pick(&["required", "important", "standard", "optional", "extra"]).to_string(),
         V::MultiArch => rng.pick(&["same", "foreign", "no", "allowed"]).to_string(),
         V::Words => (0..1 + rng.below(3)).map(|_| word(rng)).collect::<Vec<_>>().join(" "),
+        V::CommaWords => (0..1 + rng.below(3)).map(|_| rng.s(&["foo", "bar", "libfoo-dev", "a"]).to_string()).collect::<Vec<_>>().join(", "),
         V::Lines => (0..1 + rng.below(3)).map(|_| word(rng)).collect::<Vec<_>>().join("\n"),
         V::Sha1s => (0..1 + rng.below(2)).map(|_| format!("{} {} {}", hex(rng, 40), rng.below(100000), word(rng))).collect::<Vec<_>>().join("\n"),
         V::Sha256s => (0..1 + rng.below(2)).map(|_| format!("{} {} {}", hex(rng, 64), rng.below(100000), word(rng))).collect::<Vec<_>>().join("\n"),
@@ -118,7 +120,7 @@ pub fn value(rng: &mut Rng, v: V) -> String {
             .map(|_| format!("{} {} {} {} {}", hex(rng, 32), rng.below(100000), rng.pick(&["net", "contrib/utils", "main"]), rng.pick(&["optional", "extra"]), word(rng)))
             .collect::<Vec<_>>()
             .join("\n"),
-        V::Date => rng.pick(&["Sat, 14 Dec 2024 10:15:30 +0000", "Mon, 01 Jan 2024 00:00:00 UTC", "Tue, 29 Feb 2028 23:59:59 +0100"]).to_string(),
+        V::Date => rng.pick(&["Sat, 14 Dec 2024 10:15:30 +0000", "Mon, 01 Jan 2024 00:00:00 UTC", "Tue, 29 Feb 2028 23:59:59 +0100", "Sat, 24 Aug 2024 14:13:49 UTC"]).to_string(),
         V::DateYmd => rng.pick(&["2024-12-14", "2000-02-29", "1999-01-01"]).to_string(),
         V::Identity => identity(rng),
         V::Vcs => vcs(rng),
@@ -271,7 +273,7 @@ pub const APT_SOURCE: &[F] = &[
     F("Description", false, V::Description),
     F("Version", true, V::Version),
     F("Package", true, V::Word),
-    F("Binary", false, V::Words),
+    F("Binary", false, V::CommaWords),
     F("Maintainer", false, V::Identity),
     F("Build-Depends", false, V::Rel),
     F("Build-Depends-Indep", false, V::Rel),
